@@ -103,7 +103,7 @@ func TestVerifC17Close(t *testing.T) {
 	}
 	l := evlog.Open("C17")
 	defer l.Close()
-	causes := []string{"local-close", "remote-close", "remote-close-lost", "idle-timeout", "idle-timeout-replay", "stateless-reset", "transport-error", "transport-close"}
+	causes := []string{"local-close", "remote-close", "remote-close-lost", "idle-timeout", "idle-timeout-replay", "stateless-reset", "transport-error", "transport-close", "local-close-send-error"}
 	var cases []c17Case
 	rng := l.Rand("c17")
 	idx := 0
@@ -609,6 +609,19 @@ func runC17(l *evlog.Log, c *evlog.Case, cs *c17Case) {
 		wantVictim = fmt.Sprintf("application(remote=false,code=%#x,msg=%q)", appCode, "bye")
 		wantPeer = fmt.Sprintf("application(remote=true,code=%#x,msg=%q)", appCode, "bye")
 		wantWire = fmt.Sprintf("app:%#x", appCode)
+	case "local-close-send-error":
+		// the victim's socket refuses to send (e.g. the network is unreachable) when the application closes:
+		// everything local happens all the same, the peer cannot be told
+		if victimIsClient {
+			w.ClientSendFails.Store(true)
+			defer w.ClientSendFails.Store(false)
+		} else {
+			w.ServerSendFails.Store(true)
+			defer w.ServerSendFails.Store(false)
+		}
+		victim.CloseWithError(appCode, "bye")
+		wantVictim = fmt.Sprintf("application(remote=false,code=%#x,msg=%q)", appCode, "bye")
+		wantWire = "none"
 	case "remote-close":
 		peer.CloseWithError(appCode, "bye")
 		wantVictim = fmt.Sprintf("application(remote=true,code=%#x,msg=%q)", appCode, "bye")
@@ -750,7 +763,7 @@ func runC17(l *evlog.Log, c *evlog.Case, cs *c17Case) {
 		viol("wrong-cause|want="+wantVictim, "context cause is %s (%v)", got, cause)
 	}
 	switch cs.Cause {
-	case "local-close", "transport-close", "stateless-reset", "transport-error", "remote-close":
+	case "local-close", "local-close-send-error", "transport-close", "stateless-reset", "transport-error", "remote-close":
 		if doneAt-trigger > time.Second {
 			viol("cause-recorded-late", "context cancelled %s after the trigger", doneAt-trigger)
 		}
